@@ -1,5 +1,7 @@
 /* C12 harnesses: split-ordered list key arithmetic and the bucket-count protocol (sliced from _concurrent_unordered_base.h / _machine.h) */
 #include "verif.h"
+#include <stdlib.h>
+#ifndef C12_LIST   /* ---- key arithmetic and bucket-count protocol ---- */
 typedef size_t size_type; typedef size_t sokey_type;
 #define LOOP_rev_1
 /* rehash has no loop on the pinned tree; should one appear (the source carries a TODO about it) it is proved against this contract */
@@ -69,3 +71,139 @@ void h_adjust(void) {
     OBLIGATION(POW2(c.my_bucket_count) && c.my_bucket_count >= before, "C12.count: adjust_table_size keeps a power of two and only ever doubles");
     VACUITY_END();
 }
+#endif /* !C12_LIST */
+
+#ifdef C12_LIST
+/* =====================================================================================================================================
+   The split-ordered list (insert-only, lock-free).  Rely/guarantee over ONE next pointer at a time, sequentially consistent atomics.
+
+   Representation.  Nodes are opaque tokens NODEPTR(i), i < g_n (g_n symbolic, <= 2^12); their immutable attributes are per-index arrays of
+   arbitrary content: g_ok[i] (order key), g_eq[i] (element whose key is equivalent to the key K* this thread works on), g_rank[i] (ghost: the
+   node's place in the list order once it is linked; an insert-only list never reorders, so the place is fixed at link time).  The only mutable
+   words are the next pointers.  Every access to a next pointer of a node that is in the list is preceded by interfere(): any number of steps of
+   any number of other threads, i.e. the word takes ANY value the list invariant allows (WORD_INV).  Hence a single scalar g_word stands for
+   "the next pointer being accessed"; the next pointer of this thread's own, still private node is g_me_next (no interference until it is linked).
+
+   List invariant, instantiated at the word read (node p, value q) and at ONE arbitrary other node W (ghost index g_w; universal by arbitrariness):
+     q == NULL or q is a linked node with rank[q] > rank[p] and ok[q] >= ok[p]                      (sorted along every next pointer)
+     W linked  =>  W does not lie strictly between p and q (q == NULL: not after p)                  (the chain holds every linked node)
+     W linked  =>  ranks of distinct linked nodes differ, and rank order implies order-key order    (sortedness is transitive along the chain)
+   Guarantee proved at this thread's linking CAS (GUARANTEE_LINK): the invariant again, plus for unique-key containers: no equivalent node is
+   linked at that moment, and the successor's order key is strictly greater (an element is appended to the END of its order-key run).
+   Rely (what the same guarantee gives for the other threads): an equivalent node W of a unique-key container becomes linked only while this
+   thread's node is not linked, and then lies after every linked node whose order key is <= ok(K*).
+   ===================================================================================================================================== */
+typedef size_t size_type; typedef size_t sokey_type; typedef size_t key_type;
+typedef struct list_node *node_ptr; typedef node_ptr value_node_ptr;
+#define LOOP_rev_1
+#include "log2.inc"
+#include "sokey.inc"
+#define NMAX ((size_t)1 << 12)
+static size_t g_n; static sokey_type *g_ok; static bool *g_eq; static size_t *g_rank;
+#define NODEPTR(i) ((node_ptr)(((uintptr_t)(i) + 1) << 4))
+#define TIDX(p) ((size_t)(((uintptr_t)(p)) >> 4) - 1)
+#define VALID(p) ((p) != NULL && (((uintptr_t)(p)) & 15) == 0 && TIDX(p) < g_n)
+#define OK(p) (g_ok[TIDX(p)])
+#define RANK(p) (g_rank[TIDX(p)])
+#define EQ(p) (g_eq[TIDX(p)])
+size_t g_me, g_w;                       /* this thread's new node; ONE arbitrary other node of interest (equivalent element / same-key dummy / element present before) */
+#define MEPTR NODEPTR(g_me)
+#define WPTR NODEPTR(g_w)
+bool g_me_linked, g_w_linked, g_created, g_unique_rely;
+node_ptr g_word, g_me_next, g_acc, g_obs_p, g_obs_q;   /* g_acc: node whose next pointer is being accessed; g_obs_p/g_obs_q: the last (node, next) pair this thread read */
+sokey_type g_okstar; key_type g_key; size_t g_hash;
+static size_t nidx(node_ptr p) { __CPROVER_assert(VALID(p), "C12.safe: only a node that was obtained from the list (or the thread's own node) is dereferenced"); return TIDX(p); }
+#define NODE_ORDER_KEY(p) (g_ok[nidx(p)])
+static node_ptr *next_word(node_ptr p) { size_t i = nidx(p); g_acc = p; return (i == g_me && !g_me_linked) ? &g_me_next : &g_word; }
+#define NODE_NEXT_WORD(p) (*next_word(p))
+/* facts about W relative to a linked node x */
+#define SORTEDW(x) (!g_w_linked || (((x) == WPTR || RANK(x) != g_rank[g_w]) && (!(g_rank[g_w] < RANK(x)) || g_ok[g_w] <= OK(x)) && (!(g_rank[g_w] > RANK(x)) || g_ok[g_w] >= OK(x))))
+#define WORD_INV(p, q) (SORTEDW(p) && ((q) == NULL ? (!g_w_linked || !(g_rank[g_w] > RANK(p))) \
+    : (VALID(q) && (q) != (p) && RANK(q) > RANK(p) && OK(q) >= OK(p) && ((q) != MEPTR || g_me_linked) && ((q) != WPTR || g_w_linked) && SORTEDW(q) \
+       && (!g_w_linked || !(g_rank[g_w] > RANK(p) && g_rank[g_w] < RANK(q))))))
+/* W is appended behind every linked node Y whose order key is <= the key's */
+#define W_AFTER(y) (!VALID(y) || OK(y) > g_okstar || g_rank[g_w] > RANK(y))
+static void interfere(node_ptr *w) {
+    if (!g_w_linked && nondet_bool()) {                                  /* another thread links W */
+        g_w_linked = true;
+        if (g_unique_rely) __CPROVER_assume(!g_me_linked && W_AFTER(g_obs_p) && W_AFTER(g_obs_q));
+    }
+    if (w == &g_word) { g_word = (node_ptr)nondet_uintptr_t(); __CPROVER_assume(WORD_INV(g_acc, g_word)); }
+}
+#define ATOMIC_LOAD_AT(site, w) LOAD_##site(w)
+#define ATOMIC_STORE_AT(site, w, v) STORE_##site(w, v)
+#define ATOMIC_CAS_AT(site, w, e, d) CAS_##site(w, e, d)
+#define ATOMIC_FETCH_ADD_AT(site, w, v) FADD_##site(w, v)
+#define LOAD_node_next_LOAD_1(w) ({ node_ptr *w_ = &(w); interfere(w_); node_ptr r_ = *w_; g_obs_p = g_acc; g_obs_q = r_; r_; })
+#define STORE_node_set_next_STORE_1(w, v) do { node_ptr *w_ = &(w); \
+    __CPROVER_assert(w_ == &g_me_next, "C12.link: a next pointer is written by a plain store only in the thread's own node while that node is still private (a node that is in the list changes its next pointer by CAS only)"); \
+    *w_ = (v); } while (0)
+#define CAS_node_try_set_next_CAS_1(w, e, d) ({ node_ptr *w_ = &(w); node_ptr p_ = g_acc; interfere(w_); node_ptr o_ = *w_; bool r_ = (o_ == *(e)); \
+    if (r_) { GUARANTEE_LINK(w_, p_, o_, (d)); *w_ = (d); g_me_linked = true; } else *(e) = o_; r_; })
+#define GUARANTEE_LINK(w_, p, c, n) do { \
+    __CPROVER_assert((w_) == &g_word, "C12.link: a node is published by a CAS on the next pointer of a node that is in the list"); \
+    __CPROVER_assert((n) == MEPTR && g_created, "C12.link: the node linked is the node this insert created"); \
+    __CPROVER_assert(!g_me_linked, "C12.link: a node is linked at most once"); \
+    __CPROVER_assert(g_me_next == (c), "C12.link: the new node's next pointer is the successor it is put in front of - no node behind the insertion point becomes unreachable"); \
+    __CPROVER_assert(OK(p) <= g_ok[g_me] && ((c) == NULL || g_ok[g_me] <= OK(c)), "C12.sorted: the list stays sorted by split-order key across the link (predecessor <= new node <= successor)"); \
+    LINK_EXTRA(p, c); } while (0)
+static void list_setup(void) {
+    g_n = nondet_size_t(); __CPROVER_assume(g_n >= 3 && g_n <= NMAX);
+    g_ok = malloc(g_n * sizeof(sokey_type)); g_eq = malloc(g_n * sizeof(bool)); g_rank = malloc(g_n * sizeof(size_t)); __CPROVER_assume(g_ok && g_eq && g_rank);
+    g_me = nondet_size_t(); g_w = nondet_size_t(); __CPROVER_assume(g_me < g_n && g_w < g_n && g_w != g_me);
+    g_me_linked = false; g_w_linked = nondet_bool(); g_created = false; g_me_next = (node_ptr)nondet_uintptr_t(); g_word = NULL; g_acc = NULL; g_obs_q = NULL;
+}
+
+#ifdef L_INSERT
+/* ---- search_after + try_insert + internal_insert: any list, any interleaving, unique-key and multi containers (allow_multimapping arbitrary) ---- */
+struct sres { value_node_ptr first; bool second; };
+struct iir { value_node_ptr remaining_node; value_node_ptr node_with_equal_key; bool inserted; };
+struct cub { size_type my_size, my_bucket_count; };
+bool allow_multimapping; int g_size_incs;
+#define NODE_KEY(x) (__CPROVER_assert((g_ok[nidx(x)] & 1) == 1, "C12.safe: a key is read only from an element, never from a dummy node (dummies have no value)"), (x))
+#define KEY_EQUAL(a, b) (__CPROVER_assert((b) == g_key, "C12.find: nodes are compared with the key being inserted"), g_eq[TIDX(a)])
+#define KEY_HASH(k) (g_hash)
+#define LINK_EXTRA(p, c) do { if (!allow_multimapping) { \
+    __CPROVER_assert(!g_w_linked, "C12.unique: when an insert links its node no other node with an equivalent key is in the list - of several concurrent inserts of one absent key exactly one links its node"); \
+    __CPROVER_assert((c) == NULL || OK(c) > g_ok[g_me], "C12.unique: an element of a unique-key container is linked at the end of its order-key run (what the other inserters' searches rely on)"); } } while (0)
+#include "nodes.inc"
+#define FADD_insert_FETCH_ADD_1(w, v) ({ __CPROVER_assert(g_me_linked, "C12.size: the element count is raised only for a linked node"); g_size_incs++; size_type o_ = (w); (w) = o_ + (v); o_; })
+#define LOAD_insert_LOAD_1(w) (w)
+static void STUB_adjust_table_size(struct cub *s, size_type total, size_type cur) { }
+/* prepare_bucket (job solist.bucket): the linked dummy node of the key's bucket; its order key is even and smaller than the element's (job sokey.order) */
+static node_ptr STUB_prepare_bucket(struct cub *s, sokey_type h) { __CPROVER_assert(h == g_hash, "C12.key: the bucket is chosen from the key's hash");
+    node_ptr d = (node_ptr)nondet_uintptr_t(); __CPROVER_assume(VALID(d) && d != MEPTR && (OK(d) & 1) == 0 && OK(d) < g_okstar && SORTEDW(d)); g_obs_p = d; g_obs_q = NULL; return d; }
+static value_node_ptr STUB_create_insert_node(struct cub *s, sokey_type ok) { __CPROVER_assert(!g_created, "C12.link: one node is created per insert");
+    __CPROVER_assert(ok == g_okstar, "C12.key: the new node carries the split-order key of its key's hash"); g_created = true; g_me_next = NULL; return MEPTR; }
+/* position facts about the arbitrary equivalent node W (unique-key containers): L1 W, if linked, lies behind prev; L2 if W lies at or before curr (and is not curr) then curr is past the key's run */
+#define L1(pv) (!g_w_linked || g_rank[g_w] > RANK(pv))
+#define L2(cu) ((cu) == NULL || !g_w_linked || (cu) == WPTR || g_rank[g_w] > RANK(cu) || OK(cu) > g_okstar)
+#define POS(pv, cu) (VALID(pv) && (pv) != MEPTR && g_obs_p == (pv) && g_obs_q == (cu) && OK(pv) <= g_okstar && !g_me_linked \
+    && ((cu) == NULL || (VALID(cu) && (cu) != MEPTR && OK(cu) >= OK(pv))) && (allow_multimapping || (L1(pv) && L2(cu))))
+#define LOOP_search_1 __CPROVER_assigns(*prev, curr, g_word, g_w_linked, g_obs_p, g_obs_q, g_acc) \
+    __CPROVER_loop_invariant(POS(*prev, curr) && order_key == g_okstar && key == g_key)
+#define LOOP_insert_1 __CPROVER_assigns(prev, curr, search_result, g_word, g_me_next, g_me_linked, g_w_linked, g_obs_p, g_obs_q, g_acc) \
+    __CPROVER_loop_invariant(POS(prev, curr) && g_created && new_node == MEPTR && order_key == g_okstar && key == g_key && g_size_incs == 0 \
+       && (curr == NULL || OK(curr) > g_okstar || (allow_multimapping && OK(curr) == g_okstar)))
+#include "insert.inc"
+size_t IN_hash; bool IN_multi;
+void h_insert(void) {
+    list_setup(); allow_multimapping = IN_multi = nondet_bool(); g_unique_rely = !allow_multimapping;
+    g_hash = IN_hash = nondet_size_t(); g_key = nondet_size_t(); g_okstar = split_order_key_regular(g_hash); g_size_incs = 0;
+    /* this thread's node and W carry a key equivalent to K*: equivalent keys hash alike */
+    __CPROVER_assume(g_eq[g_me] && g_ok[g_me] == g_okstar && g_eq[g_w] && g_ok[g_w] == g_okstar);
+    struct cub c; c.my_size = nondet_size_t(); c.my_bucket_count = nondet_size_t();
+    struct iir r = cub_internal_insert(&c, g_key);
+    OBLIGATION(r.inserted == g_me_linked, "C12.insert: insert reports success exactly when its node was linked into the list");
+    if (r.inserted) OBLIGATION(r.node_with_equal_key == MEPTR && r.remaining_node == NULL && g_size_incs == 1, "C12.insert: a successful insert returns its own node, leaves nothing to free and counts the element once");
+    else {
+        OBLIGATION(!allow_multimapping, "C12.insert: a multi container accepts every insert");
+        OBLIGATION(VALID(r.node_with_equal_key) && r.node_with_equal_key != MEPTR && EQ(r.node_with_equal_key) && OK(r.node_with_equal_key) == g_okstar,
+                   "C12.unique: an insert that fails returns a node of the list whose key is equivalent (the loser finds the winner's node)");
+        OBLIGATION(r.remaining_node == (g_created ? MEPTR : NULL) && g_size_incs == 0, "C12.insert: the losing insert hands its unlinked node back to be freed (and only that), and does not count an element");
+    }
+    OBLIGATION(allow_multimapping || !(g_me_linked && g_w_linked), "C12.unique: a unique-key container never holds two nodes with equivalent keys");
+    VACUITY_END();
+}
+#endif /* L_INSERT */
+#endif /* C12_LIST */
